@@ -336,7 +336,7 @@ func run(c Case) ev.Verdict {
 	}
 
 	if len(wantErrs) == 0 {
-		if err != nil && mayReject && errors.Is(err, util.ErrBadOption) {
+		if err != nil && mayReject && (errors.Is(err, util.ErrBadOption) || errors.Is(err, util.ErrFileNotFoundError)) {
 			v.Classes = append(v.Classes, "rejects-invalid-foreign-option")
 
 			return v
@@ -346,7 +346,9 @@ func run(c Case) ev.Verdict {
 			return ev.Fail("constructor failed: %v (ctor %s, options %+v)", err, c.Ctor, eff)
 		}
 	} else {
-		okErr := (wantErrs["file-not-found"] && errors.Is(err, util.ErrFileNotFoundError)) ||
+		// a file that does not exist is an invalid value: the file-not-found class of today or the
+		// bad-option class the statement names; with several invalid values any of them may surface
+		okErr := ((wantErrs["file-not-found"] || mayReject) && (errors.Is(err, util.ErrFileNotFoundError) || errors.Is(err, util.ErrBadOption))) ||
 			((wantErrs["bad-option"] || wantErrs["bad-option-any"] || mayReject) && errors.Is(err, util.ErrBadOption))
 		if !okErr {
 			return ev.Fail("invalid option value(s) %v: constructor returned %v (options %+v)", wantErrs, err, eff)
